@@ -38,10 +38,25 @@ def scat2Rot [Add α] [Sub α] [Mul α] [OfNat α 0] (m : MagOps α) (h0o h1o h2
   let s1p := r3.map fun p => avgPool2 m.q p.1
   s0 ++ s1p ++ s1j2 ++ s2
 
+/-- reference second-order scattering of one RGB item with colour combination on band-pass families -/
+def scat2cRot [Add α] [Sub α] [Mul α] [OfNat α 0] (m : MagOps α) (h0o h1o h2o h0a h0b h1a h1b h2a h2b : List α) (x : List (Img α)) :
+    List (Img α) :=
+  let r1 := x.map fun im => refLevel1Rot m.s h0o h1o h2o im
+  let g1 := fun c o => ((r1.getD c ([], [])).2).getD o ([], [])
+  let s1j1 := (List.range 6).map fun o => subBias m (magR3 m (g1 0 o) (g1 1 o) (g1 2 o))
+  let r2 := r1.map fun p => refLevel2Rot m.s h0a h0b h1a h1b h2a h2b p.1
+  let g2 := fun c o => ((r2.getD c ([], [])).2).getD o ([], [])
+  let s1j2 := (List.range 6).map fun o => subBias m (magR3 m (g2 0 o) (g2 1 o) (g2 2 o))
+  let s0 := r2.map fun p => avgPool2 m.q p.1
+  let r3 := s1j1.map fun im => refLevel1Rot m.s h0o h1o h2o im
+  let s2 := ((List.range 6).map fun o2 => r3.map fun p => subBias m (magR m (p.2.getD o2 ([], [])))).flatten
+  let s1p := r3.map fun p => avgPool2 m.q p.1
+  s0 ++ s1p ++ s1j2 ++ s2
+
 end Spec
 
 namespace C08B
-open WV.C04 WV.C04Q WV.C04P WV.C03P WV.C11P WV.C08Q
+open WV.C04 WV.C04Q WV.C04P WV.C03P WV.C11P WV.C08Q WV.C08R
 variable {R : Type} [CommRing R]
 
 /-- **level 1 with a band-pass diagonal filter: the model is the reference** (rows-then-columns = columns-then-rows) -/
@@ -269,6 +284,84 @@ theorem ScatLayerj2_rot_eq_spec (m : MagOps R) (h0o h1o h2o h0a h0b h1a h1b h2a 
       = some (Spec.scat2Rot m h0o h1o h2o h0a h0b h1a h1b h2a h2b (x.map pad8Img)) := by
   unfold ScatLayerj2
   apply scatJ2_rot_eq_spec m h0o h1o h2o h0a h0b h1a h1b h2a h2b hh0 hh1 hh2 hl0 hab0 hl1 hab1 hl2 hab2 _
+    ((H + 7) / 8) ((W + 7) / 8) (by omega) (by omega)
+  intro im him
+  obtain ⟨im0, h0, rfl⟩ := List.mem_map.mp him
+  exact pad8Img_rect im0 H W (hx im0 h0) hH hW
+
+/-- **the second-order layer with colour combination on band-pass families = band-pass reference levels + joint-magnitude formulas**,
+every RGB image with sides multiples of 8, any square-root operation -/
+theorem scatJ2_rot_colour_eq_spec (m : MagOps R) (h0o h1o h2o h0a h0b h1a h1b h2a h2b : List R) (hh0 : h0o.length % 2 = 1)
+    (hh1 : h1o.length % 2 = 1) (hh2 : h2o.length % 2 = 1)
+    (hl0 : 1 ≤ h0b.length) (hab0 : h0a.length = h0b.length) (hl1 : 1 ≤ h1b.length) (hab1 : h1a.length = h1b.length)
+    (hl2 : 1 ≤ h2b.length) (hab2 : h2a.length = h2b.length)
+    (x : List (Img R)) (hx3 : x.length = 3) (a b : Nat) (ha : 1 ≤ a) (hb : 1 ≤ b) (hx : ∀ im ∈ x, Rect im (8*a) (8*b)) :
+    scatJ2 m true (mkS2Rot h0o h1o h2o h0a h0b h1a h1b h2a h2b) true x
+      = some (Spec.scat2cRot m h0o h1o h2o h0a h0b h1a h1b h2a h2b x) := by
+  have hguard : ¬ (x.any (fun im => im.length % 8 ≠ 0 ∨ Img.width im % 8 ≠ 0) = true) := by
+    rw [List.any_eq_true]
+    rintro ⟨im, him, hodd⟩
+    have r := hx im him
+    have hw := rect_width _ _ _ r (by omega)
+    simp only [r.1, hw, decide_eq_true_eq] at hodd
+    omega
+  have hx2 : ∀ im ∈ x, Rect im (2*(4*a)) (2*(4*b)) := by
+    intro im him; have := hx im him
+    rw [show 2*(4*a) = 8*a by ring, show 2*(4*b) = 8*b by ring]; exact this
+  have hmap1 : x.map (fwd1 m true (prepFilt h0o) (prepFilt h1o) (some (prepFilt h2o)))
+      = x.map fun im => Spec.refLevel1Rot m.s h0o h1o h2o im := by
+    apply List.map_congr_left
+    intro im him
+    exact fwd1Rot_eq m h0o h1o h2o hh0 hh1 hh2 im (4*a) (4*b) (by omega) (by omega) (hx2 im him)
+  have hlow : ∀ p ∈ (x.map fun im => Spec.refLevel1Rot m.s h0o h1o h2o im), Rect p.1 (4*(2*a)) (4*(2*b)) := by
+    intro p hp
+    obtain ⟨im, him, rfl⟩ := List.mem_map.mp hp
+    have := refLevel1Rot_rect m.s h0o h1o h2o hh0 im (4*a) (4*b) (by omega) (by omega) (hx2 im him)
+    rw [show 4*(2*a) = 2*(4*a) by ring, show 4*(2*b) = 2*(4*b) by ring]; exact this
+  have hmap2 : (x.map fun im => Spec.refLevel1Rot m.s h0o h1o h2o im).mapM
+        (fun p => fwd2 m (prepFilt h0a) (prepFilt h1a) (prepFilt h0b) (prepFilt h1b) (some (prepFilt h2a, prepFilt h2b)) p.1)
+      = some ((x.map fun im => Spec.refLevel1Rot m.s h0o h1o h2o im).map
+          fun p => Spec.refLevel2Rot m.s h0a h0b h1a h1b h2a h2b p.1) := by
+    apply mapM_total
+    intro p hp
+    exact fwd2Rot_eq m h0a h0b h1a h1b h2a h2b hl0 hab0 hl1 hab1 hl2 hab2 p.1 (2*a) (2*b) (by omega) (by omega) (hlow p hp)
+  obtain ⟨x0, rest, hxe⟩ : ∃ x0 rest, x = x0 :: rest := by
+    cases x with
+    | nil => simp at hx3
+    | cons a b => exact ⟨a, b, rfl⟩
+  have hx0 : Rect x0 (2*(4*a)) (2*(4*b)) := hx2 x0 (by rw [hxe]; simp)
+  have hg0 : ((x.map fun im => Spec.refLevel1Rot m.s h0o h1o h2o im).getD 0 ([], [])) = Spec.refLevel1Rot m.s h0o h1o h2o x0 := by
+    rw [hxe]; rfl
+  have hs1 : ∀ im ∈ ((List.range 6).map fun o => subBias m (magR3 m
+        (((x.map fun im => Spec.refLevel1Rot m.s h0o h1o h2o im).getD 0 ([], [])).2.getD o ([], []))
+        (((x.map fun im => Spec.refLevel1Rot m.s h0o h1o h2o im).getD 1 ([], [])).2.getD o ([], []))
+        (((x.map fun im => Spec.refLevel1Rot m.s h0o h1o h2o im).getD 2 ([], [])).2.getD o ([], [])))), Rect im (2*(2*a)) (2*(2*b)) := by
+    intro im him
+    obtain ⟨o, ho, rfl⟩ := List.mem_map.mp him
+    rw [hg0]
+    have hbands := refLevel1Rot_bands m.s h0o h1o h2o hh0 hh1 hh2 x0 (4*a) (4*b) (by omega) (by omega) hx0 o (by simpa using ho)
+    rw [show 2*(2*a) = 4*a by ring, show 2*(2*b) = 4*b by ring]
+    exact subBias_magR3_rect m _ _ _ (4*a) (4*b) (by omega) hbands.1 hbands.2
+  have hmap3 := List.map_congr_left (f := fwd1 m true (prepFilt h0o) (prepFilt h1o) (some (prepFilt h2o)))
+    (g := fun im => Spec.refLevel1Rot m.s h0o h1o h2o im)
+    (fun im him => fwd1Rot_eq m h0o h1o h2o hh0 hh1 hh2 im (2*a) (2*b) (by omega) (by omega) (hs1 im him))
+  unfold scatJ2
+  rw [if_neg hguard]
+  have h3 : ¬ (x.length ≠ 3) := by rw [hx3]; simp
+  simp only [mkS2Rot, Bool.not_true, Bool.false_eq_true, if_false, if_true, h3, hmap1, hmap2, hmap3, Option.bind_eq_bind, Option.bind_some,
+    Spec.scat2cRot, Option.pure_def]
+
+/-- **`ScatLayerj2(combine_colour=True)` on band-pass families (extension to multiples of 8, then the Function) = reference + joint
+formulas**, every RGB image with at least 4 rows and columns -/
+theorem ScatLayerj2_rot_colour_eq_spec (m : MagOps R) (h0o h1o h2o h0a h0b h1a h1b h2a h2b : List R) (hh0 : h0o.length % 2 = 1)
+    (hh1 : h1o.length % 2 = 1) (hh2 : h2o.length % 2 = 1)
+    (hl0 : 1 ≤ h0b.length) (hab0 : h0a.length = h0b.length) (hl1 : 1 ≤ h1b.length) (hab1 : h1a.length = h1b.length)
+    (hl2 : 1 ≤ h2b.length) (hab2 : h2a.length = h2b.length)
+    (x : List (Img R)) (hx3 : x.length = 3) (H W : Nat) (hH : 4 ≤ H) (hW : 4 ≤ W) (hx : ∀ im ∈ x, Rect im H W) :
+    ScatLayerj2 m true (mkS2Rot h0o h1o h2o h0a h0b h1a h1b h2a h2b) true x
+      = some (Spec.scat2cRot m h0o h1o h2o h0a h0b h1a h1b h2a h2b (x.map pad8Img)) := by
+  unfold ScatLayerj2
+  apply scatJ2_rot_colour_eq_spec m h0o h1o h2o h0a h0b h1a h1b h2a h2b hh0 hh1 hh2 hl0 hab0 hl1 hab1 hl2 hab2 _ (by simp [hx3])
     ((H + 7) / 8) ((W + 7) / 8) (by omega) (by omega)
   intro im him
   obtain ⟨im0, h0, rfl⟩ := List.mem_map.mp him
